@@ -37,6 +37,8 @@ type c17Case struct {
 	// URLLen > 0: the store keys are that long (long keys live in nested fragment directories
 	// that the first write has to create)
 	URLLen int `json:"url_len,omitempty"`
+	// Stealth: the tampering is done on a settled, already-read entry and restores the mtime
+	Stealth bool `json:"stealth,omitempty"`
 	// config
 	BadKey string `json:"bad_key,omitempty"`
 	KeyTag string `json:"key_tag,omitempty"`
@@ -195,9 +197,24 @@ func execC17(t *testing.T, sc *world.Scenario) (*oracle.Result, string) {
 		}
 	}
 	orig = again
+	// Stealth: the entry has been lying there for a while and has been read through this handle
+	// before; the tampering keeps the file's inode and puts its modification time back
+	// (an attacker with write access can do that): what a Get returns is still decided by the
+	// bytes in the file, not by a memory of them.
+	settled := time.Now().Add(-time.Hour)
+	if c.Stealth {
+		_ = os.Chtimes(f1, settled, settled)
+		if got, err := conn.Get(k1); err != nil || !bytes.Equal(got, value) {
+			return r, fmt.Sprintf("warm Get failed: %v", err)
+		}
+		r.Label("stealth-tamper")
+	}
 	check := func(kind string, pos int, data []byte) bool {
 		if err := os.WriteFile(f1, data, 0o644); err != nil {
 			return true
+		}
+		if c.Stealth {
+			_ = os.Chtimes(f1, settled, settled)
 		}
 		got, err := conn.Get(k1)
 		r.Evals++
@@ -455,7 +472,7 @@ func TestC17Tamper(t *testing.T) {
 			n = gen.Pick(rt, "vbig", 5000, 70000, 140000, 200000)
 		}
 		return mkC17(c17Case{Kind: "tamper", Path: gen.Pick(rt, "path", c17Paths...), KeyLen: gen.Pick(rt, "klen", 16, 24, 32),
-			ValLen: n, Seed: uint64(rapid.IntRange(1, 1<<30).Draw(rt, "seed")), URLLen: gen.Pick(rt, "urllen", 0, 0, 0, 150, 192, 250, 400, 1000)})
+			ValLen: n, Seed: uint64(rapid.IntRange(1, 1<<30).Draw(rt, "seed")), URLLen: gen.Pick(rt, "urllen", 0, 0, 0, 150, 192, 250, 400, 1000), Stealth: gen.Pct(rt, "stealth", 35)})
 	}
 	RunCheck(t, c)
 }
